@@ -263,6 +263,24 @@ def stub_fidelity_random(nscripts=400, seed=20260922):
       problems.append('RLock differs on %s: real %s stub %s' % (ls, run_lock(threading.RLock, ls), run_lock(prims.SimRLock, ls)))
     if run_lock(threading.Lock, ls) != run_lock(prims.SimLock, ls):
       problems.append('Lock differs on %s: real %s stub %s' % (ls, run_lock(threading.Lock, ls), run_lock(prims.SimLock, ls)))
+    ss = [rng.choice(['acq', 'rel', 'rel']) for _ in range(rng.randrange(2, 12))]
+    v0 = rng.randrange(0, 3)
+
+    def run_sem(S):
+      sem = S(v0)
+      log = []
+      for op in ss:
+        try:
+          if op == 'acq':
+            log.append(sem.acquire(False))
+          else:
+            sem.release()
+            log.append('rel')
+        except ValueError:
+          log.append('ValueError')
+      return log
+    if run_sem(threading.Semaphore) != run_sem(prims.SimSemaphore) or run_sem(threading.BoundedSemaphore) != run_sem(prims.SimBoundedSemaphore):
+      problems.append('Semaphore differs on %s (initial %d)' % (ss, v0))
     es = [rng.choice(['set', 'clear', 'is_set', 'wait0']) for _ in range(rng.randrange(2, 12))]
     if run_event(threading.Event, es) != run_event(prims.SimEvent, es):
       problems.append('Event differs on %s' % es)
